@@ -310,7 +310,7 @@ func (c *Ctx) RequireWriters(rule, what, typ, field string, valFilter func(ssa.V
 		seen[n] = true
 		c.funcsSeen[w.Fn] = true
 		key := "writer of " + what + ": " + n
-		if why, ok := allowed[n]; ok {
+		if why, ok := c.ownedBy(n, allowed, 3); ok {
 			c.Ob(rule, key, true, true, "allowed: %s (%s)", why, c.Pos(w.Store.Pos()))
 		} else {
 			c.Require(rule, key, false, "%s writes %s at %s but is not in the table of allowed writers", n, what, c.Pos(w.Store.Pos()))
@@ -358,6 +358,7 @@ func (c *Ctx) callersOf(target *ssa.Function) map[*ssa.Function][]ssa.CallInstru
 	if target == nil {
 		return out
 	}
+	target = orig(target)
 	for f := range c.allFuncs() {
 		if !inModule(f) || f.Synthetic != "" {
 			continue
@@ -390,7 +391,7 @@ func (c *Ctx) RequireCallers(rule string, target *ssa.Function, allowed map[stri
 		}
 		seen[n] = true
 		key := "caller of " + fname(target) + ": " + n
-		if why, ok := allowed[n]; ok {
+		if why, ok := c.ownedBy(n, allowed, 3); ok {
 			c.Ob(rule, key, true, true, "allowed: %s", why)
 		} else {
 			c.Require(rule, key, false, "%s calls %s but is not in the table of allowed callers", n, fname(target))
